@@ -184,12 +184,19 @@ func VerifC09Wiring() {
 	verifrt.Assume(cfg.Validate() == nil)
 	lb, bs := verifFullLB(0, 1, 0)
 	lb.setupRateLimiter(cfg)
-	verifForceOK = true
-	defer func() { verifForceOK = false }()
+	// the limit is about requests, not about their outcome: with the circuit breaker in front (a
+	// threshold the burst does not reach) and a backend that answers 200 or fails every request
+	outcome := "200"
+	if verifrt.Bool("breakerEnabledAndBackendFailing") {
+		lb.circuitBreaker = circuitbreaker.NewCircuitBreaker(circuitbreaker.Settings{Name: "verif", MaxRequests: 1, Interval: time.Hour, Timeout: time.Hour, FailureThreshold: 100, SuccessThreshold: 1})
+		outcome = "503"
+	}
 	send := func() bool {
 		rec := verifNewRecorder()
 		hits := verifProxyHits[bs[0].Name]
-		verifServe(lb, rec, rec.finish, verifRequest("10.1.2.3:4711"))
+		rq := verifRequest("10.1.2.3:4711")
+		rq.Header.Set("X-Verif-Outcome", outcome)
+		verifServe(lb, rec, rec.finish, rq)
 		fwd := verifProxyHits[bs[0].Name] > hits
 		verifrt.Assert(fwd == (rec.status != http.StatusTooManyRequests), "a request is forwarded exactly when it is not answered 429")
 		return fwd
@@ -238,5 +245,6 @@ func VerifC03Timeouts() {
 	verifrt.Assert(tr.ResponseHeaderTimeout > 0, "backend response-header timeout is never disabled")
 	verifrt.Assert(tr.IdleConnTimeout > 0, "backend idle-connection timeout is never disabled")
 	verifrt.Assert(tr.TLSHandshakeTimeout > 0 && tr.DialContext != nil, "backend dial path has a timeout-carrying dialer")
-	verifrt.Assert(p.ModifyResponse == nil && p.ErrorHandler == nil && p.Rewrite == nil && p.FlushInterval == 0, "no response-rewriting hooks are installed on the per-backend proxy")
+	verifrt.Assert(p.ModifyResponse == nil && p.ErrorHandler == nil && p.Rewrite == nil, "no response-rewriting hooks are installed on the per-backend proxy")
+	verifrt.Assert(tr.DisableCompression, "the backend transport does not negotiate compression on its own: it would add Accept-Encoding: gzip to requests of clients that sent none and hand the client a decoded body without the backend's Content-Encoding / Content-Length")
 }
